@@ -202,13 +202,31 @@ class SoupWorld:
         return o is self.soup
 
 
+def link_dump(soup):
+    """pointer dump of the real parsed document, ids = creation order (= pre-order), in the model's format"""
+    from bs4.element import Tag
+    order, stack = [], [soup]
+    while stack:
+        o = stack.pop()
+        order.append(o)
+        if isinstance(o, Tag):
+            stack.extend(reversed(o.contents))
+    ids = {id(o): i for i, o in enumerate(order)}
+    f = lambda o: "-" if o is None else str(ids.get(id(o), "?"))
+    rows = []
+    for i, o in enumerate(order):
+        kids = ".".join(f(c) for c in o.contents) if isinstance(o, Tag) and o.contents else "-"
+        rows.append(f"{i} {f(o.parent)} {f(o.previous_sibling)} {f(o.next_sibling)} {f(o.previous_element)} {f(o.next_element)} {kids}")
+    return ",".join(rows)
+
+
 def fmt_cfg(cfg):
     pre = "pre=" + (".".join(cfg["pre"]) if cfg["pre"] else "-")
     cont = "cont=" + (".".join(f"{k}:{v}" for k, v in cfg["cont"].items()) if cfg["cont"] else "-")
     return f"{pre} {cont}"
 
 
-def check_case(ctx, cfgname, events, stream, lines, impls, cases):
+def check_case(ctx, cfgname, events, stream, lines, impls, cases, link_lines=None, link_impls=None):
     from . import heapsim
     cfg = CONFIGS[cfgname]
     try:
@@ -233,6 +251,9 @@ def check_case(ctx, cfgname, events, stream, lines, impls, cases):
     lines.append(f"c03 build {fmt_cfg(cfg)} {';'.join(events) if events else '-'}")
     impls.append(got)
     cases.append({"cfg": cfgname, "events": events})
+    if link_lines is not None:
+        link_lines.append(f"c03 link {fmt_cfg(cfg)} {';'.join(events) if events else '-'}")
+        link_impls.append(link_dump(soup))
 
 
 def run(ctx: Ctx):
@@ -244,6 +265,7 @@ def run(ctx: Ctx):
     ctx.assumptions = ["events arrive through a harness TreeBuilder calling handle_starttag/handle_endtag/handle_data/endData, as html.parser's adapter does"]
     syms = list(ALPHABET)
     lines, impls, cases = [], [], []
+    link_lines, link_impls = [], []
     plan = []
     if ctx.thorough:
         plan = [("html", 5), ("xml", 4), ("custom", 4), ("both", 4)]
@@ -254,7 +276,7 @@ def run(ctx: Ctx):
         for k in range(L + 1):
             for combo in itertools.product(syms, repeat=k):
                 events = [e for s in combo for e in ALPHABET[s]]
-                check_case(ctx, cfgname, events, "exhaustive", lines, impls, cases)
+                check_case(ctx, cfgname, events, "exhaustive", lines, impls, cases, link_lines, link_impls)
                 n += 1
         ctx.exhaustive_parts.append(f"{cfgname}: all {n} event lists of length <= {L} over {len(syms)} symbols")
         ctx.count(f"exhaustive:{cfgname}", n)
@@ -267,10 +289,11 @@ def run(ctx: Ctx):
         cfgname = r.choice(list(CONFIGS))
         k = r.randint(5, 40)
         events = [e for _ in range(k) for e in allsyms[r.choice(names)]]
-        check_case(ctx, cfgname, events, "random", lines, impls, cases)
+        check_case(ctx, cfgname, events, "random", lines, impls, cases, link_lines, link_impls)
     ctx.count("random", ctx.n(3000, 60000))
     # model: code-mirror and documented fold
     drv = Driver()
+    compare_links(ctx, drv, link_lines, link_impls, cases)
     B = 50000
     for off in range(0, len(lines), B):
         ls = lines[off:off + B]
@@ -283,6 +306,21 @@ def run(ctx: Ctx):
                 ctx.violation("model and implementation disagree on the built tree", case=c | {"line": l}, observed=a,
                               model={"build": b, "buildSpec": b2}, expected=want, stream="correspondence",
                               no_failing_input=(a == want))
+
+
+def compare_links(ctx, drv, link_lines, link_impls, cases):
+    """every pointer field of every object of the parsed document vs the parse-time linkage model (Model/ParseLink.lean)"""
+    B = 50000
+    for off in range(0, len(link_lines), B):
+        rep = drv.ask(link_lines[off:off + B])
+        for l, a, b, c in zip(link_lines[off:off + B], link_impls[off:off + B], rep, cases[off:off + B]):
+            if a != b:
+                ctx.corr_disagreements += 1
+                ra, rb = a.split(","), b.split(",")
+                j = next((k for k in range(min(len(ra), len(rb))) if ra[k] != rb[k]), min(len(ra), len(rb)))
+                ctx.violation(f"parse-time linkage: model and implementation disagree at node {j}: impl '{ra[j] if j < len(ra) else None}', model '{rb[j] if j < len(rb) else None}' (id parent ps ns pe ne kids)",
+                              case=c | {"line": l[:1500]}, observed=a[:1500], model=b[:1500], stream="parse-linkage", no_failing_input=True)
+    ctx.count("parse-linkage:documents", len(link_lines))
 
 
 def replay(path):
